@@ -91,12 +91,18 @@ type monitorState struct {
 	stallSlack  time.Duration
 	lastIdx     map[int]int
 	deferred    []deferredReply
+	maxWaiters  int
+	byKey       map[kid][]*ReqRec
+	bigStates   int
+	maxHolders  int
+	sawLongExp  bool
+	sawLongWait bool
 	flushing    bool // booking the final state of a recycled manager: the task that made it is unknown
 }
 
 func newMonitor(cr *coreRun) *monitorState {
 	ms := &monitorState{cr: cr, w: cr.w, keys: map[kid]*keyTrack{}, reqs: map[[16]byte]*reqTrack{}, pending: map[kid][]*reqTrack{},
-		sigs: map[string]bool{}, pms: map[*PriorityMutex]*LockDB{}, concurrent: !cr.body.Serial, lastIdx: map[int]int{}}
+		sigs: map[string]bool{}, pms: map[*PriorityMutex]*LockDB{}, concurrent: !cr.body.Serial, lastIdx: map[int]int{}, byKey: map[kid][]*ReqRec{}}
 	ms.cfg.SeqPipeline = true
 	return ms
 }
@@ -150,6 +156,7 @@ func (ms *monitorState) onInvoke(r *ReqRec) {
 		return
 	}
 	ms.pending[id] = append(ms.pending[id], rt)
+	ms.byKey[id] = append(ms.byKey[id], r)
 	ms.addNoChange(kt, rt)
 	if t := ssched.CurrentTask(); t != nil && r.Client >= 0 {
 		if _, isMem := ms.cr.clients[r.Client].(*memClient); isMem {
@@ -220,6 +227,15 @@ func (kt *keyTrack) trackOf(lid, req [16]byte) *holdTrack {
 	return nil
 }
 
+// msSlack: millisecond deadlines are computed from a clock reading truncated to whole
+// milliseconds; one millisecond of tolerance on their lower bound.
+func msSlack(ms bool) time.Duration {
+	if ms {
+		return time.Millisecond
+	}
+	return 0
+}
+
 func expiryDur(e uint16, flag uint16) time.Duration {
 	switch {
 	case flag&efMs != 0:
@@ -241,12 +257,26 @@ func timeoutDur(op *OpSpec) time.Duration {
 }
 
 func (ms *monitorState) next(kt *keyTrack, rt *reqTrack) []Outcome {
-	if rt.view.Op.Cmd == protocol.COMMAND_LOCK {
-		return nextLock(&kt.mk, rt.view, ms.cfg, ms.sameDeadlineFn(kt, rt), ms.concurrent)
+	outs := ms.nextCfg(kt, rt, ms.cfg)
+	if rt.view.Data != nil && hasPipeline(rt.view.Data) {
+		alt := ms.cfg
+		alt.SeqPipeline = false
+		for _, o := range ms.nextCfg(kt, rt, alt) {
+			o.NonSeq = true
+			o.Note += " [pipeline applied non-sequentially]"
+			outs = append(outs, o)
+		}
 	}
-	outs := nextUnlock(&kt.mk, rt.view, ms.cfg, true)
+	return outs
+}
+
+func (ms *monitorState) nextCfg(kt *keyTrack, rt *reqTrack, cfg ModelCfg) []Outcome {
+	if rt.view.Op.Cmd == protocol.COMMAND_LOCK {
+		return nextLock(&kt.mk, rt.view, cfg, ms.sameDeadlineFn(kt, rt), ms.concurrent)
+	}
+	outs := nextUnlock(&kt.mk, rt.view, cfg, true)
 	if !kt.present || (len(kt.mk.Holders) == 0 && len(kt.mk.Waiters) == 0) {
-		outs = append(outs, nextUnlock(&kt.mk, rt.view, ms.cfg, false)...)
+		outs = append(outs, nextUnlock(&kt.mk, rt.view, cfg, false)...)
 	}
 	return outs
 }
@@ -356,7 +386,27 @@ func (ms *monitorState) onRelease(db *LockDB, pm *PriorityMutex) {
 		}
 		kt.changes++
 		ms.transitions++
-		ms.sigs[after.sig()] = true
+		if len(after.Holders)+len(after.Waiters) <= 24 {
+			ms.sigs[after.sig()] = true
+		} else {
+			ms.bigStates++
+		}
+		if n := len(after.Waiters); n > ms.maxWaiters {
+			ms.maxWaiters = n
+		}
+		if n := len(after.Holders); n > ms.maxHolders {
+			ms.maxHolders = n
+		}
+		for i := range snap.Holders {
+			if snap.Holders[i].ptr != nil && snap.Holders[i].ptr.longWaitIndex > 0 {
+				ms.sawLongExp = true
+			}
+		}
+		for i := range snap.Waiters {
+			if snap.Waiters[i].ptr != nil && snap.Waiters[i].ptr.longWaitIndex > 0 {
+				ms.sawLongWait = true
+			}
+		}
 		for _, rt := range ms.pending[id] {
 			ms.addNoChange(kt, rt)
 		}
@@ -412,9 +462,26 @@ func (ms *monitorState) explain(kt *keyTrack, after *MKey, ptrs []*Lock) {
 		}
 	}
 	// 2. wake-up of the head waiter
-	acts = append(acts, action{"wake", nil, nextWake(before, ms.dataOf, ms.cfg)})
+	wk := nextWake(before, ms.dataOf, ms.cfg)
+	if len(before.Waiters) > 0 {
+		if frame, _ := ms.dataOf(before.Waiters[0].Req); frame != nil && hasPipeline(frame) {
+			alt := ms.cfg
+			alt.SeqPipeline = false
+			for _, o := range nextWake(before, ms.dataOf, alt) {
+				o.NonSeq = true
+				o.Note += " [pipeline applied non-sequentially]"
+				wk = append(wk, o)
+			}
+		}
+	}
+	acts = append(acts, action{"wake", nil, wk})
 	// 3. expiry of a hold, 4. timeout of a waiter, 5. value reclaimed with the key
-	for i := range before.Holders {
+	// (only removals that can possibly match are materialised: the state copy is quadratic)
+	if len(after.Holders) == len(before.Holders)-1 && len(after.Waiters) == len(before.Waiters) {
+		i := 0
+		for i < len(after.Holders) && before.Holders[i] == after.Holders[i] {
+			i++
+		}
 		a := before.clone()
 		h := before.Holders[i]
 		a.Holders = append(a.Holders[:i:i], a.Holders[i+1:]...)
@@ -424,7 +491,11 @@ func (ms *monitorState) explain(kt *keyTrack, after *MKey, ptrs []*Lock) {
 		}
 		acts = append(acts, action{"expire", nil, []Outcome{{After: a, Pred: Pred{Result: res}, SecondReq: h.Req, Note: fmt.Sprintf("expire l%d", lidIndex(h.Lid))}}})
 	}
-	for i := range before.Waiters {
+	if len(after.Waiters) == len(before.Waiters)-1 && len(after.Holders) == len(before.Holders) {
+		i := 0
+		for i < len(after.Waiters) && before.Waiters[i] == after.Waiters[i] {
+			i++
+		}
 		a := before.clone()
 		wt := before.Waiters[i]
 		a.Waiters = append(a.Waiters[:i:i], a.Waiters[i+1:]...)
@@ -452,14 +523,41 @@ func (ms *monitorState) explain(kt *keyTrack, after *MKey, ptrs []*Lock) {
 			}
 		}
 	}
-	if len(matches) > 1 && ms.flushing {
-		// the final state of a recycled manager is booked without knowing which task produced it:
-		// every matching explanation is kept as a possibility, none is asserted
+	// distinct explanations (different actors) of the same step
+	actorOf := func(m match) string {
+		if m.ac.name == "request" {
+			return "request:" + string(m.ac.rt.r.Id[:])
+		}
+		if m.ac.name == "wake" || m.ac.name == "timeout" {
+			return "queue:" + string(m.o.SecondReq[:]) // wake-without-hold vs timeout of one waiter: handled below
+		}
+		return m.ac.name + ":" + string(m.o.SecondReq[:])
+	}
+	actors := map[string]bool{}
+	for _, m := range matches {
+		actors[actorOf(m)] = true
+	}
+	if len(actors) > 1 || (len(matches) > 1 && ms.flushing) {
+		// several different actors could have made this step (an expiry and a pending unlock of
+		// the same hold; a cancellation and a grant-without-hold of the same waiter; the final
+		// state of a recycled manager): every explanation is kept as a possibility for the
+		// requests involved, none is asserted
+		ms.w.probe("ambiguous_steps")
 		for _, m := range matches {
 			switch m.ac.name {
 			case "request":
-				m.ac.rt.altPreds = append(m.ac.rt.altPreds, m.o.Pred)
+				if !m.o.Pred.NoReply {
+					m.ac.rt.altPreds = append(m.ac.rt.altPreds, m.o.Pred)
+				} else if m.ac.rt.queuedAt.IsZero() {
+					m.ac.rt.queuedAt = now
+				}
 				m.ac.rt.maybe = true
+				if m.o.SecondPred != nil {
+					if other := ms.reqs[m.o.SecondReq]; other != nil {
+						other.altPreds = append(other.altPreds, *m.o.SecondPred)
+						other.maybe = true
+					}
+				}
 			case "expire", "timeout", "wake":
 				if rt := ms.reqs[m.o.SecondReq]; rt != nil {
 					if m.ac.name == "expire" {
@@ -468,6 +566,7 @@ func (ms *monitorState) explain(kt *keyTrack, after *MKey, ptrs []*Lock) {
 						p := m.o.Pred
 						if m.ac.name == "timeout" {
 							p = Pred{Result: protocol.RESULT_TIMEOUT, Before: before.Val}
+							rt.ambTimeout = true
 						}
 						rt.altPreds = append(rt.altPreds, p)
 						rt.maybe = true
@@ -475,12 +574,24 @@ func (ms *monitorState) explain(kt *keyTrack, after *MKey, ptrs []*Lock) {
 				}
 			}
 		}
-		kt.holds = map[*Lock]*holdTrack{}
-		kt.wakeDue = false
+		ms.bookHolds(kt, after, ptrs, now, true)
 		return
 	}
 	if len(matches) > 0 {
 		m0 := matches[0]
+		if m0.o.NonSeq {
+			// is there an equally good sequential explanation by the same action?
+			for _, m := range matches[1:] {
+				if m.ac == m0.ac && !m.o.NonSeq {
+					m0 = m
+					break
+				}
+			}
+		}
+		if m0.o.NonSeq {
+			ms.violate("C15", "pipeline_not_sequential", "key %d db %d: a PIPELINE value operation left %s; applying its operations one after the other to %s gives a different value (each operation was applied to the value before the pipeline, so only the last one took effect)",
+				keyIndex(kt.id.key), kt.id.db, after.Val, before.Val)
+		}
 		// the same step may have a second explanation for the same queued request (a waiter with
 		// expiry 0 that leaves the queue was either granted without a hold or timed out)
 		amb := false
@@ -590,7 +701,7 @@ func (ms *monitorState) apply(kt *keyTrack, ac *action, o *Outcome, after *MKey,
 				}
 				ms.violate("C06", class, "key %d: hold l%d with the unlimited-expiry flag was ended by time (millisecond terms at some point: %v, renewed: %v)", keyIndex(kt.id.key), lidIndex(h.Lid), ht != nil && ht.everMs, ht != nil && ht.renewed)
 			} else if ht != nil {
-				if el, e := now.Sub(ht.ref), expiryDur(h.Expried, h.EFlag); el < e {
+				if el, e := now.Sub(ht.ref), expiryDur(h.Expried, h.EFlag); el+msSlack(h.EFlag&efMs != 0) < e {
 					class := "expired_early"
 					if ht.everMs && ht.renewed {
 						class = "expired_early_ms_wheel_renewal"
@@ -609,7 +720,7 @@ func (ms *monitorState) apply(kt *keyTrack, ac *action, o *Outcome, after *MKey,
 	case "timeout":
 		if rt := ms.reqs[o.SecondReq]; rt != nil {
 			if !rt.queuedAt.IsZero() && !ambiguous {
-				if el, t := now.Sub(rt.queuedAt), timeoutDur(&rt.view.Op); el < t {
+				if el, t := now.Sub(rt.queuedAt), timeoutDur(&rt.view.Op); el+msSlack(rt.view.Op.TFlag&tfMs != 0) < t {
 					ms.violate("C05", "timeout_early", "request %s (timeout %v) was timed out %v after it was queued", rt.r, t, el)
 				}
 			}
@@ -618,6 +729,13 @@ func (ms *monitorState) apply(kt *keyTrack, ac *action, o *Outcome, after *MKey,
 		w.probe("cs_timeout")
 	case "reclaim":
 	}
+	ms.bookHolds(kt, after, ptrs, now, false)
+}
+
+// bookHolds keeps the per-hold timing records, the wake-up obligation and the F8 window in step
+// with an observed transition. lenient: the step was ambiguous, timing references of holds whose
+// terms changed are reset without judging.
+func (ms *monitorState) bookHolds(kt *keyTrack, after *MKey, ptrs []*Lock, now time.Time, lenient bool) {
 	// F8 window: a hold that ends before the reply that announces it has been delivered
 	{
 		still := map[[16]byte]bool{}
@@ -642,10 +760,14 @@ func (ms *monitorState) apply(kt *keyTrack, ac *action, o *Outcome, after *MKey,
 	}
 	for i, h := range after.Holders {
 		h := h
+		if i >= len(ptrs) {
+			break
+		}
 		p := ptrs[i]
 		old := kt.holds[p]
 		prev := prevOf[p]
 		switch {
+		case ptrs == nil:
 		case old == nil || prev == nil:
 			newHolds[p] = &holdTrack{ref: now, since: now, everMs: h.EFlag&efMs != 0}
 			// C01: admission of a new holder against the state before (independent of the model's
@@ -653,7 +775,7 @@ func (ms *monitorState) apply(kt *keyTrack, ac *action, o *Outcome, after *MKey,
 			ms.checkAdmission(kt, &kt.mk, &h)
 		case prev.Req != h.Req:
 			// re-lock or update: the period restarts
-			nt := &holdTrack{ref: now, since: old.since, everMs: old.everMs || h.EFlag&efMs != 0, renewed: true}
+			nt := &holdTrack{ref: now, since: old.since, everMs: old.everMs || h.EFlag&efMs != 0, renewed: true, shortened: old.shortened}
 			if h.EFlag&efUnlim == 0 && (prev.EFlag&efUnlim != 0 || now.Add(expiryDur(h.Expried, h.EFlag)).Before(old.ref.Add(expiryDur(prev.Expried, prev.EFlag)))) {
 				nt.shortened = true
 			}
@@ -843,7 +965,7 @@ func (ms *monitorState) onReply(r *ReqRec, rep *Reply) {
 			return
 		}
 		if rt.ambTimeout && rep.Result == protocol.RESULT_TIMEOUT && !rt.queuedAt.IsZero() {
-			if el, t := rep.T.Sub(rt.queuedAt), timeoutDur(&rt.view.Op); el < t {
+			if el, t := rep.T.Sub(rt.queuedAt), timeoutDur(&rt.view.Op); el+msSlack(rt.view.Op.TFlag&tfMs != 0) < t {
 				ms.violate("C05", "timeout_early", "request %s (timeout %v) was timed out %v after it was queued", rt.r, t, el)
 			}
 		}
@@ -922,7 +1044,11 @@ func (ms *monitorState) l1Exclusion(g *ReqRec, rep *Reply) {
 	id := ms.kidOf(g)
 	def := 0
 	var who []string
-	for _, h := range ms.cr.h.order {
+	hist := ms.byKey[id]
+	if len(hist) > 250 {
+		return // the white-box form of the rule covers long single-key histories; this form is cubic
+	}
+	for _, h := range hist {
 		if h == g || h.Op.Cmd != protocol.COMMAND_LOCK || ms.kidOf(h) != id || len(h.Replies) == 0 {
 			continue
 		}
@@ -937,7 +1063,7 @@ func (ms *monitorState) l1Exclusion(g *ReqRec, rep *Reply) {
 			continue // may have expired
 		}
 		ended := false
-		for _, u := range ms.cr.h.order {
+		for _, u := range hist {
 			if ms.kidOf(u) != id || u == h {
 				continue
 			}
@@ -1081,7 +1207,22 @@ func (ms *monitorState) finish() {
 	w := ms.w
 	ms.settleDeferred()
 	w.res.Probes["transitions"] = ms.transitions
-	w.res.Probes["distinct_key_states"] = len(ms.sigs)
+	if ms.maxWaiters > 8 {
+		w.probe("queue_gt8")
+	}
+	if ms.maxWaiters > 128 {
+		w.probe("queue_gt128")
+	}
+	if ms.maxHolders > 128 {
+		w.probe("holders_gt128")
+	}
+	if ms.sawLongExp {
+		w.probe("hold_in_long_table")
+	}
+	if ms.sawLongWait {
+		w.probe("waiter_in_long_table")
+	}
+	w.res.Probes["distinct_key_states"] = len(ms.sigs) + ms.bigStates
 	keys := make([]string, 0, len(ms.sigs))
 	for k := range ms.sigs {
 		keys = append(keys, k)
